@@ -477,13 +477,13 @@ def attrWireSize (two : Bool) (a : Attr) : Nat :=
     whose bit count exceeds the length octet has none), never from what the encoder under test did with it. -/
 def entryEncodable (e : Entry) : Bool :=
   match e.nlri with
-  | .opq _ _ wire => wire
+  | .opq _ _ info => info.wire
   | _ => true
 
 /-- an NLRI that has a wire form but was refused by the encoder (probe ENC = `err`) -/
 def entryRefused (e : Entry) : Bool :=
   match e.nlri with
-  | .opq .err _ wire => wire
+  | .opq .err _ info => info.wire
   | _ => false
 
 def entryWireSize (addpath : Bool) (e : Entry) : Nat :=
